@@ -8,8 +8,13 @@ Local Open Scope Z_scope.
 (* Registration: succeeds, keeps the invariant (including the radix-tree
    growth across 128, 16384, ... -- there is no bound on num), adds exactly
    this timer and changes no other timer's membership or expiry. *)
+(* The hypothesis `tget s t <> None` says that the timer object exists (it has
+   been through IV_TIMER_INIT / had its expiry set, as do_act's set_exp does
+   before every register).  Without it the statement is false: a timer unknown
+   to `tm` reads tidx = -1, set_idx on it is a no-op, and e.g.
+   register init 1 = Ok s' with sget s' 1 = Some 1 but tidx s' 1 = -1. *)
 Theorem C05_register :
-  forall s t, HeapInv s -> tidx s t = -1 ->
+  forall s t, HeapInv s -> tget s t <> None -> tidx s t = -1 ->
     exists s', register s t = Ok s' /\ HeapInv s' /\
       abs s' t = Some (texp s t) /\
       (forall t', t' <> t -> abs s' t' = abs s t') /\
